@@ -102,7 +102,7 @@ def gen_many(pid, module, cfgs, outname):
 
 
 def hll_like(pid, tier, seed, check, record_cmd, mcs, gens, module="Trace_Hll", extra_args=None,
-             assumptions=None, rule=""):
+             assumptions=None, rule="", family="Hll", consts=None):
     t0 = time.time()
     clean(pid)
     thorough = tier == "thorough"
@@ -119,7 +119,7 @@ def hll_like(pid, tier, seed, check, record_cmd, mcs, gens, module="Trace_Hll", 
         args.update(extra_args)
     rec = vh(vhbin, record_cmd, args)
     paths = [work(pid, "tr.%d.ndjson" % i) for i in range(shards)]
-    cfg = trace_cfg(pid, "Hll", HLL_CONSTS, check)
+    cfg = trace_cfg(pid, family, consts or HLL_CONSTS, check)
     ev, rej, st = validate_shards(module, cfg, paths, jobs=shards)
     viol, hits = classify(pid, rej, module, cfg)
     cov = {"states": sum(m["states"] for m in mc) + sum(g["states"] for g in gen) + st,
@@ -154,3 +154,21 @@ def C03(tier, seed):
                   "feed/update_value/reset/to_sketch; Trace: random union histories over catalogues of empty/list/set/array inputs x "
                   "Hll4/6/8 x lg_k 4..12 x fresh/deserialized/out-of-order, lg_max_k 4,7,8,10,12, permuted orders, repetition, "
                   "to_sketch for all three types after every step with full register comparison")
+
+
+# --------------------------------------------------------------------------- Theta
+THETA_CONSTS = "CONSTANTS MinLg = 5  StrideBits = 7\n"
+
+
+def C04(tier, seed):
+    hll_like("C04", tier, seed, ["C04"], "theta-record",
+             [("MC_Theta", "MC_Theta.cfg"), ("MC_Theta", "MC_Theta_p.cfg")],
+             ("Gen_Theta", ["Gen_Theta_58.cfg", "Gen_Theta_14.cfg"]),
+             module="Trace_Theta", family="Theta", consts=THETA_CONSTS,
+             assumptions=["63-bit hashes are order-projected (rank in the run + low 30 bits): every predicate the specification uses (<, =, table index, stride) is preserved",
+                          "hashes of public update() calls are derived by harness/src/refhash.rs; the table is read through ThetaSketch::verif_table()",
+                          "the layout after a rebuild is unspecified (select_nth_unstable): any layout holding exactly the k smallest entries, each reachable by its probe, is accepted and adopted"],
+             rule="MC: toy tables exhaustive (offer/trim/reset over hash domain, sampling); Gen: one TLC behaviour per distinct table state "
+                  "from a prefix at the rebuild threshold with index/stride-colliding and theta-adjacent hashes; Trace: random public streams "
+                  "lg_k 5..12 x 4 resize factors x p in {1,.5,.1} x seeds, crafted collision families, theta-1/theta/theta+1, screened-out "
+                  "sampling sketches, trim/reset/compact interleavings, full table at every resize/rebuild")
